@@ -18,6 +18,9 @@ A State can be final or not, and has transitions to other states
 type State struct {
 	Terminal    bool
 	Transitions StateTransitions
+
+	// the states whose transitions were already merged into this one while removing shortcuts
+	expanded map[*State]bool
 }
 
 /*
@@ -86,6 +89,14 @@ func (s *State) simplifySelf(start *State) bool {
 		if matcher.IsShortcut(tr.Matcher) {
 			next := tr.Next
 			s.Transitions = removeTransitionAt(idx, s.Transitions)
+			if next == s || s.expanded[next] {
+				// already merged: shortcuts forming a cycle would be expanded forever
+				return true
+			}
+			if s.expanded == nil {
+				s.expanded = map[*State]bool{}
+			}
+			s.expanded[next] = true
 			for _, tr := range next.Transitions {
 				if !s.has(tr) {
 					s.Transitions = append(s.Transitions, tr)
